@@ -40,7 +40,7 @@ def run(ctx: Ctx):
     if not r.ok:
         raise tlc.MachineryError(f'design counterexample in Chained.tla: {r.violated}\n{r.counterexample[-1:]}')
     ctx.notes['design_invariants'] = ['Inv_C18_Along', 'Inv_C18_RowsKept', 'Inv_C18_Final', 'Termination']
-    n = 1500 if ctx.tier == 'quick' else 40000
+    n = 1500 if ctx.tier == 'quick' else 15000
     base = ctx.seed * 1_000_003
     seeds = [base + i for i in range(n)]
     cases = []
